@@ -58,6 +58,32 @@ def run(chk, repo):
                         "is checked against size")
     chk.rule("C09.gain", "normalisation: gain = max of the column sums of |w| blocked by hop, window divided by gain when "
                          "non-zero; without window [1/ceil(size/hop)] * size")
+    chk.rule("C09.memo", "a result kept between calls of an stft processor / overlap_add (``if key not in cache: ... "
+                         "cache[key] = value``) is keyed by everything it was computed from: every argument of the call "
+                         "that the guarded computation reads is part of the key")
+    from ..core import memo_dict_sites
+    nmemo = 0
+    for sname_, dname_ in (("rfft", "stft"), ("list", "overlap_add"), ("numpy", "overlap_add")):
+        fnm = repo.strategy(LA, dname_, sname_).node
+        for ifn, cache, key, reads, encl in memo_dict_sites(fnm):
+            nmemo += 1
+            varying = {a.arg for a in encl.args.args + encl.args.kwonlyargs} - {"self"}
+            # locals computed before the test from the arguments vary with them
+            for st_ in ast.walk(encl):
+                if isinstance(st_, ast.Assign) and getattr(st_, "lineno", 0) < ifn.lineno and any(
+                        isinstance(x, ast.Name) and x.id in varying for x in ast.walk(st_.value)):
+                    for t_ in st_.targets:
+                        if isinstance(t_, ast.Name):
+                            varying.add(t_.id)
+            in_key = {x.id for x in ast.walk(key) if isinstance(x, ast.Name)}
+            missing = sorted((reads & varying) - in_key)
+            chk.decide(not missing, "C09.memo", W("%s[%s]" % (dname_, sname_)),
+                       "%s[%s] computed from %s" % (cache, unparse(key), sorted(reads & varying)),
+                       why="the kept value depends on %s, which the key %s does not contain: a later call with another %s "
+                           "gets the value computed for the first one (e.g. the analysis window of an earlier call)"
+                           % (", ".join(missing), unparse(key), missing[0] if missing else ""), node=ifn)
+    if nmemo == 0:
+        chk.ok("C09.memo", W("stft / overlap_add"), "nothing is kept between calls", node=repo.strategy(LA, "stft", "rfft").node)
     chk.rule("C09.fresh", "a window that is modified in place (slice store / augmented assignment) was bound, on every path, "
                           "to a newly built container (list(..), [..], np.array(..), ...): the caller's window object and "
                           "whatever a window callable returns are never written to")
